@@ -222,6 +222,25 @@ def op_transpose(P):
     legs = [a.legs[i] for i in perm]
     if kind in ('itranspose', 'iswapaxes'):
         a.dense, a.labels, a.legs = exp, labels, legs
+        if rng.random() < 0.5 and a.dense.size and np.issubdtype(a.dense.dtype, np.floating):
+            # the in-place result is used right away as the right operand of a binary operation with an independently built tensor
+            # (block lists are merged there: a stale claim about the order of the blocks gives wrong values)
+            from tenpy.linalg import np_conserved as npc
+            mask = gen.charge_mask([l.qflat for l in a.legs], [l.qconj for l in a.legs], np.asarray(a.qtotal), P.mod) if len(P.mod) else np.ones(a.dense.shape, bool)
+            pd = np.where(mask, np.arange(1, a.dense.size + 1, dtype=a.dense.dtype).reshape(a.dense.shape), 0)
+            try:
+                partner = npc.Array.from_ndarray(pd, list(a.arr.legs), dtype=a.arr.dtype, qtotal=a.arr.qtotal, labels=a.arr.get_leg_labels())
+                got = (partner + a.arr).to_ndarray()
+                got2 = npc.inner(partner, a.arr, axes='range', do_conj=True)  # (real dtype: sum of the products; legs must be equal)
+            except Exception as e:
+                P.violation(kind + ':then-binary-op:raises-%s' % type(e).__name__, repr(e)[:200])
+            else:
+                tol = 1e-4 if P.single else 1e-10
+                if not np.allclose(got, pd + a.dense, atol=tol * max(1.0, float(np.max(np.abs(pd))))):
+                    P.violation(kind + ':then-add:value', 'partner + (in-place transposed tensor) differs from numpy')
+                ref2 = np.sum(pd * a.dense)
+                if not (abs(got2 - ref2) <= tol * max(1.0, abs(ref2)) * 10):
+                    P.violation(kind + ':then-inner:value', 'inner(partner, in-place transposed tensor) = %r, numpy %r' % (got2, ref2))
         return {'modified': [a], 'retkind': 'inplace'}
     return {'new': [Slot(r, exp, labels, legs, a.qtotal, kind)], 'retkind': 'deep'}
 
